@@ -107,7 +107,7 @@ where
 
     trait SpliceFn {
         fn read(&mut self) -> BoxFuture<'_, IoResult<usize>>;
-        fn write(&mut self, more: bool) -> BoxFuture<'_, IoResult<usize>>;
+        fn write(&mut self, len: usize, more: bool) -> BoxFuture<'_, IoResult<usize>>;
         // end of the source stream: pass it on by closing the sending direction of the destination
         fn shutdown(&mut self) -> IoResult<()>;
     }
@@ -117,7 +117,7 @@ where
         fn read(&mut self) -> BoxFuture<'_, IoResult<usize>> {
             unreachable!()
         }
-        fn write(&mut self, _more: bool) -> BoxFuture<'_, IoResult<usize>> {
+        fn write(&mut self, _len: usize, _more: bool) -> BoxFuture<'_, IoResult<usize>> {
             unreachable!()
         }
         fn shutdown(&mut self) -> IoResult<()> {
@@ -139,8 +139,8 @@ where
             fn read(&mut self) -> BoxFuture<'_, IoResult<usize>> {
                 async_splice(&mut self.sfd, &self.pipe.1, self.bufsz, false).boxed()
             }
-            fn write(&mut self, more: bool) -> BoxFuture<'_, IoResult<usize>> {
-                async_splice(&mut self.pipe.0, &self.dfd, self.bufsz, more).boxed()
+            fn write(&mut self, len: usize, more: bool) -> BoxFuture<'_, IoResult<usize>> {
+                async_splice(&mut self.pipe.0, &self.dfd, len, more).boxed()
             }
             fn shutdown(&mut self) -> IoResult<()> {
                 use nix::sys::socket::{shutdown, Shutdown};
@@ -194,7 +194,16 @@ where
             ret = async {pipe_fn.read().await}, if have_rawfd => {
                 let len = ret.with_context(|| format!("pipe_read from {}", src.name))?;
                 if len > 0 {
-                    pipe_fn.write(len >= params.buffer_size).await.with_context(|| format!("pipe_write to {}", dst.name))?;
+                    // the destination may take less than what is staged in the pipe: keep going until the
+                    // pipe is empty again, or the remainder is delayed and finally lost at end of stream
+                    let mut left = len;
+                    while left > 0 {
+                        let n = pipe_fn.write(left, len >= params.buffer_size).await.with_context(|| format!("pipe_write to {}", dst.name))?;
+                        if n == 0 {
+                            return Err(err_msg(format!("pipe_write to {}: wrote nothing", dst.name)));
+                        }
+                        left -= n;
+                    }
                     stat.incr_sent_bytes(len);
                     #[cfg(feature = "metrics")]
                     counter.inc_by(len as u64);
